@@ -18,7 +18,7 @@ CHECKS = {
                 'note (C01_reimport_of_canonical_note), the kern export of that token is that text (string lemmas on replace / '
                 'join, sort identity on sorted lists) and export-import-export = export (C01_note_fixed_point); the same for every '
                 'well-formed REST (C01_reimport_of_canonical_rest, C01_rest_fixed_point); for CHORDS of any number of notes the canonical '
-                'text is read back as exactly its notes, in order (C01_reimport_of_canonical_chord) and exported as the same text again (C01_chord_fixed_point). For '
+                'text is read back as exactly its notes, in order (C01_reimport_of_canonical_chord) and exported as the same text again (C01_chord_fixed_point); at DOCUMENT level for single-spine **kern documents of any number of lines whose cells are in normal form (the export of their own token - canonical notes are): export o import is the identity on the text (C01_single_spine_document_fixed_point, induction over the lines of the importer model composed with the exporter model and the line reader). For '
                 'other tokens and whole documents the fixed point is decided by the correspondence of the scanner / importer / '
                 'exporter model with kernpy and by running the property on kernpy (signifiers of several characters - &( Ww TT xx yy '
                 '[y ?? - lie outside the scanner model and are round-tripped on kernpy alone). Known findings K11 (a rest inside a chord) '
@@ -51,7 +51,7 @@ CHECKS = {
                 '(scan-of-print and export-of-canonical theorems shared with C01); non-note tokens are exported as '
                 'their text, the default category set deletes no sub-part, exported sub-parts are a permutation of the note\'s '
                 'sub-parts, separator-free text is identical in all encodings; with every spine selected the export body is the grid of '
-                'the stages (one cell per node, in order) minus exactly the empty and the all-null rows (C03_export_is_the_stage_grid), and the exported text is read back as that grid cell for cell (C03_export_text_is_the_exported_grid). The remaining grid clauses (same lines minus global '
+                'the stages (one cell per node, in order) minus exactly the empty and the all-null rows (C03_export_is_the_stage_grid), and the exported text is read back as that grid cell for cell (C03_export_text_is_the_exported_grid); for single-spine **kern documents end to end the default export is the header, the export of each line\'s token in order, and the terminator (C03_single_spine_export_is_cell_by_cell). The remaining grid clauses (same lines minus global '
                 'comments and null lines, every cell against the generator\'s own description) are decided by correspondence of '
                 'the importer/exporter model and by the oracle monitor on kernpy. Known findings K2 (hidden barlines) and K3 '
                 '(separator characters inside non-note cells).',
